@@ -84,6 +84,14 @@ CLAIMED["C14"] = ("DESIGN.md §4 C14",
     "trusted: pysym, exact-integer datetime/strftime model (C locale), lemma cut for int(d/k); outside: names, W/ww/F, "
     "sub-second durations, automatic units, days 29..31")
 
+CLAIMED["C01"] = ("DESIGN.md §4 C01",
+    "Record-level write/read: the real Cell._from_value -> _to_buffer -> _from_storage (incl. decimal128 pack/unpack) is "
+    "executed for every int |n|<10^15, every float given by 1..15 symbolic significant digits at each decimal exponent "
+    "-290..289 (quick: every 10th + boundaries), both bools, whole-second datetimes of years 1..9999 and durations within "
+    "+-100 years: z3 shows the decoded value equals the written one exactly (rational equality => equal doubles).",
+    "trusted: pysym; repr/Decimal digit contract; int/int division correctly rounded; sigfig identity on <=15 digits; string "
+    "table stub; outside: tiles/protobuf/snappy/zip/reopen, sub-second dates and durations, text characters")
+
 NOT_APPLICABLE = {}
 
 
